@@ -1,3 +1,5 @@
+use typst_syntax::is_newline;
+
 pub trait BoolExt {
     fn replace(&mut self, value: Self) -> Self;
 }
@@ -18,10 +20,24 @@ pub trait StrExt {
 
 impl StrExt for str {
     fn has_linebreak(&self) -> bool {
-        self.contains('\n')
+        for c in self.chars() {
+            if is_newline(c) {
+                return true;
+            }
+        }
+        false
     }
 
+    /// Counts line breaks the way Typst's lexer does: `\r\n` is a single line break.
     fn count_linebreaks(&self) -> usize {
-        self.chars().filter(|c| *c == '\n').count()
+        let mut count = 0;
+        let mut after_cr = false;
+        for c in self.chars() {
+            if is_newline(c) && !(after_cr && c == '\n') {
+                count += 1;
+            }
+            after_cr = c == '\r';
+        }
+        count
     }
 }
